@@ -179,15 +179,44 @@ pub fn check(ctx: &Ctx) -> i32 {
             }
         }
     });
+    // the automatic-timestamp entry points: encode_video at a fixed frame duration with
+    // encode_audio frames of varying length (Opus 10/20/40/60 ms, AAC 1024/2048), every
+    // sequence of 2..=5 audio frames over the length alphabet
+    let lens_opus = [480u32, 960, 1920, 2880];
+    let lens_aac = [1024u32, 2048];
+    let mut conv: Vec<(ACodec, Vec<u32>)> = vec![];
+    for (ac, alpha) in [(ACodec::Opus, &lens_opus[..]), (ACodec::AacLc, &lens_aac[..])] {
+        let mut frontier: Vec<Vec<u32>> = vec![vec![]];
+        for _ in 0..5 {
+            frontier = frontier.iter().flat_map(|s| alpha.iter().map(move |&a| { let mut q = s.clone(); q.push(a); q })).collect();
+            conv.extend(frontier.iter().filter(|s| s.len() >= 2).map(|s| (ac, s.clone())));
+        }
+    }
+    let n_conv = conv.len();
+    let chunks: Vec<&[(ACodec, Vec<u32>)]> = conv.chunks(32).collect();
+    let tc = par_items(&chunks, ctx.seed, |idx, ch, t| {
+        for (k, (ac, lens)) in ch.iter().enumerate() {
+            let cfg = Cfg::basic(VCodec::H264, Some(*ac), (idx + k) % 2 == 0);
+            let mut ops = vec![];
+            for (j, &n) in lens.iter().enumerate() {
+                if j < 3 {
+                    ops.push(Op::EV { data: Bytes::new(video_frame(VCodec::H264, j == 0, j == 0, j as u32 + 1, 5).0), dur_ms: 40 });
+                }
+                ops.push(Op::EA { data: Bytes::new(audio_frame(*ac, j as u32, 6).0), samples: n });
+            }
+            judge(&cfg, &ops, (70_000 + idx as u64, k as u64), t);
+        }
+    });
     let mut tally = tally;
     tally.merge(tj);
     tally.merge(tr);
+    tally.merge(tc);
     finish(
         ctx,
         &tally,
         Meta {
             level: "model_checking",
-            rule: format!("every A/V history over: first video decode time {{0, 1/30, 1, 10 s}} x first video composition offset {{0, +2 frames}} x audio start minus first video presentation {{0, 1 tick, 1024/48000, 0.25, 3 s}} x 2-3 video frames x 2-3 audio frames x audio step pattern {{1024/48000, 1024/44100, 0.02, 0, (0, 1024/48000), (0.02, 0)}}, plus runs of 8 and 12 audio frames at the 48 kHz and 44.1 kHz AAC spacings, plus every audio step sequence of 2..{jmax} steps over {{600, 1200, 1800, 3000}} ticks ({n_jitter} sequences x AAC/Opus), plus every standard AAC sample rate below 65536 Hz x 3 sub-sample displacement patterns (0-30 microseconds) x 2 start times x both layouts, x {{AAC, Opus}} x both layouts x codecs; executed on the real muxer; per-track presentation timelines rebuilt from stts/ctts (+ edit list if present, empty edits and media_time honoured) and every audio sample's presentation time relative to the first video frame compared with the submitted difference (tolerance 1 tick). Distinct by output bytes."),
+            rule: format!("every A/V history over: first video decode time {{0, 1/30, 1, 10 s}} x first video composition offset {{0, +2 frames}} x audio start minus first video presentation {{0, 1 tick, 1024/48000, 0.25, 3 s}} x 2-3 video frames x 2-3 audio frames x audio step pattern {{1024/48000, 1024/44100, 0.02, 0, (0, 1024/48000), (0.02, 0)}}, plus runs of 8 and 12 audio frames at the 48 kHz and 44.1 kHz AAC spacings, plus every audio step sequence of 2..{jmax} steps over {{600, 1200, 1800, 3000}} ticks ({n_jitter} sequences x AAC/Opus), plus every standard AAC sample rate below 65536 Hz x 3 sub-sample displacement patterns (0-30 microseconds) x 2 start times x both layouts, plus {n_conv} encode_video/encode_audio histories (every sequence of 2..5 audio frame lengths over Opus {{10, 20, 40, 60 ms}} and AAC {{1024, 2048}}), x {{AAC, Opus}} x both layouts x codecs; executed on the real muxer; per-track presentation timelines rebuilt from stts/ctts (+ edit list if present, empty edits and media_time honoured) and every audio sample's presentation time relative to the first video frame compared with the submitted difference (tolerance 1 tick). Distinct by output bytes."),
             bound: "2-3 video frames, 2-3 audio frames (8 and 12 for the two constant spacings)".into(),
             exhaustive: true,
             assumptions: vec!["the known finding C09/no-start-offset is matched only when neither track has an edit list and every audio sample is off by exactly the lost start offset; any other deviation is reported as a violation".into()],
